@@ -209,6 +209,8 @@ type JobResult struct {
 }
 
 type RunOpts struct {
+	Mirror      string // second solver ("" = none)
+	MirrorEvery int
 	WitnessPerJob int
 	MaxPaths  int
 	MaxInstr  int64
@@ -381,6 +383,13 @@ func runJobs(w *World, jobs []Job, opts RunOpts) []*JobResult {
 		go func() {
 			defer wg.Done()
 			sol, err := NewSolver(opts.Solver, opts.TimeoutMs)
+			if err == nil && opts.Mirror != "" {
+				if m, merr := NewSolver(opts.Mirror, opts.TimeoutMs); merr == nil {
+					sol.mirror = m
+					sol.mirrorEvery = opts.MirrorEvery
+					sol.Reset()
+				}
+			}
 			if err != nil {
 				emu.Lock()
 				startErr = err
@@ -455,6 +464,8 @@ func runJobs(w *World, jobs []Job, opts RunOpts) []*JobResult {
 				maxSolverTime = sol.MaxTime
 			}
 			totSolverErrors += sol.Errors
+			totRechecked += sol.Rechecked
+			totDisagreed += sol.Disagreed
 			solverMu.Unlock()
 		}()
 	}
@@ -494,6 +505,8 @@ var (
 	totSolverTime   time.Duration
 	maxSolverTime   time.Duration
 	totSolverErrors int
+	totRechecked    int
+	totDisagreed    int
 )
 
 func parseParams(s string) map[string]int {
